@@ -1359,6 +1359,14 @@ def _simple_arg(e):
     return False
 
 
+def _parents_map(tree):
+    pm = {}
+    for n in ast.walk(tree):
+        for c in ast.iter_child_nodes(n):
+            pm[id(c)] = n
+    return pm
+
+
 def inline_import_time_helpers(trees, unknown, report):
     """new private functions that only module-level code uses, in two shapes:
       * a registering decorator (factory) `def D(k): def register(fn): TABLE[k] = fn; return fn; return register`
@@ -1381,6 +1389,27 @@ def inline_import_time_helpers(trees, unknown, report):
             if any(isinstance(x, ast.ImportFrom) and any(al.name == D.name for al in x.names) for r2, t2 in trees.items() if r2 != rel for x in ast.walk(t2)):
                 continue
             body = _strip_doc(D.body)
+            # ---- a helper whose whole body is `return <expr>`, called at module level with simple arguments in the value
+            # position of an assignment (`TABLE = build_table()`): the expression, parameters replaced
+            if len(body) == 1 and isinstance(body[0], ast.Return) and body[0].value is not None and not D.args.vararg and not D.args.kwarg and not any(isinstance(x, (ast.Yield, ast.YieldFrom, ast.Lambda, ast.NamedExpr)) for x in ast.walk(body[0].value)):
+                pm_ = _parents_map(tree)
+                calls = [pm_.get(id(x)) for x in refs]
+                if all(isinstance(c, ast.Call) and c.func is x and isinstance(pm_.get(id(c)), ast.Assign) and pm_[id(c)].value is c and pm_[id(c)] in tree.body and all(_simple_arg(a_) for a_ in c.args) and all(k.arg and _simple_arg(k.value) for k in c.keywords) for c, x in zip(calls, refs)):
+                    done_all = True
+                    for c in calls:
+                        b = _bind_simple(D, c)
+                        if b is None:
+                            done_all = False
+                            break
+                        new = _SubstLoads(b).visit(copy.deepcopy(body[0].value))
+                        ast.copy_location(new, c)
+                        pm_[id(c)].value = new
+                        ast.fix_missing_locations(pm_[id(c)])
+                    if done_all:
+                        tree.body = [x for x in tree.body if x is not D]
+                        report.append(("import-time-expression", f"{rel}:{D.name}"))
+                        changed.add(rel)
+                        continue
             # ---- registering decorator factory / plain registering decorator
             inner = None
             factory = False
@@ -1449,36 +1478,68 @@ def inline_import_time_helpers(trees, unknown, report):
                     changed.add(rel)
                     report.append(("inlined-registration-decorator", f"{rel}:{D.name}"))
                     continue
-            # ---- statement-position helper
-            stmt_calls = [s for s in tree.body if isinstance(s, ast.Expr) and isinstance(s.value, ast.Call) and isinstance(s.value.func, ast.Name) and s.value.func.id == D.name]
+            # ---- statement-position helper (at module level, possibly inside try / if blocks of the module body)
+            def module_stmts(stmts):
+                for st_ in stmts:
+                    if isinstance(st_, (ast.FunctionDef, ast.AsyncFunctionDef, ast.ClassDef)):
+                        continue
+                    yield st_
+                    for f_ in ("body", "orelse", "finalbody"):
+                        sub = getattr(st_, f_, None)
+                        if isinstance(sub, list) and sub and isinstance(sub[0], ast.stmt):
+                            yield from module_stmts(sub)
+                    if isinstance(st_, ast.Try):
+                        for h in st_.handlers:
+                            yield from module_stmts(h.body)
+
+            stmt_calls = [s_ for s_ in module_stmts(tree.body) if isinstance(s_, ast.Expr) and isinstance(s_.value, ast.Call) and isinstance(s_.value.func, ast.Name) and s_.value.func.id == D.name]
             if len(stmt_calls) != len(refs):
                 continue
-            if any(isinstance(x, (ast.Return, ast.Yield, ast.YieldFrom, ast.FunctionDef, ast.Lambda, ast.Global, ast.Nonlocal)) for s in body for x in ast.walk(s)):
+            if any(isinstance(x, (ast.Return, ast.Yield, ast.YieldFrom, ast.FunctionDef, ast.Lambda, ast.Global, ast.Nonlocal)) for s_ in body for x in ast.walk(s_)):
                 continue
-            locals_ = {x.id for s in body for x in ast.walk(s) if isinstance(x, ast.Name) and isinstance(x.ctx, (ast.Store, ast.Del))}
+            locals_ = {x.id for s_ in body for x in ast.walk(s_) if isinstance(x, ast.Name) and isinstance(x.ctx, (ast.Store, ast.Del))}
             if locals_:
                 continue
-            binds = []
-            for s in stmt_calls:
-                b = _bind_simple(D, s.value)
-                if b is None or not all(_simple_arg(v) for v in b.values()):
+            uses = {}
+            for s_ in body:
+                for x in ast.walk(s_):
+                    if isinstance(x, ast.Name) and isinstance(x.ctx, ast.Load):
+                        uses[x.id] = uses.get(x.id, 0) + 1
+            binds = {}
+            for s_ in stmt_calls:
+                b = _bind_simple(D, s_.value)
+                # an argument that is itself a call is evaluated once where the parameter is read once
+                if b is None or not all(_simple_arg(v) or (isinstance(v, ast.Call) and uses.get(k, 0) == 1 and isinstance(v.func, (ast.Name, ast.Attribute)) and all(_simple_arg(a_) for a_ in v.args) and all(kw.arg and _simple_arg(kw.value) for kw in v.keywords)) for k, v in b.items()):
                     binds = None
                     break
-                binds.append(b)
+                binds[id(s_)] = b
             if not binds:
                 continue
-            new_body = []
-            for st in tree.body:
-                if st in stmt_calls:
-                    b = binds[stmt_calls.index(st)]
-                    for s_ in body:
-                        ns = _SubstLoads(b).visit(copy.deepcopy(s_))
-                        ast.copy_location(ns, st)
-                        ast.fix_missing_locations(ns)
-                        new_body.append(ns)
-                elif st is not D:
-                    new_body.append(st)
-            tree.body = new_body
+
+            def rewrite(stmts):
+                out = []
+                for st_ in stmts:
+                    if id(st_) in binds:
+                        for s2 in body:
+                            ns = _SubstLoads(binds[id(st_)]).visit(copy.deepcopy(s2))
+                            ast.copy_location(ns, st_)
+                            ast.fix_missing_locations(ns)
+                            out.append(ns)
+                        continue
+                    if st_ is D:
+                        continue
+                    if not isinstance(st_, (ast.FunctionDef, ast.AsyncFunctionDef, ast.ClassDef)):
+                        for f_ in ("body", "orelse", "finalbody"):
+                            sub = getattr(st_, f_, None)
+                            if isinstance(sub, list) and sub and isinstance(sub[0], ast.stmt):
+                                setattr(st_, f_, rewrite(sub) or [ast.copy_location(ast.Pass(), st_)])
+                        if isinstance(st_, ast.Try):
+                            for h in st_.handlers:
+                                h.body = rewrite(h.body) or [ast.copy_location(ast.Pass(), h)]
+                    out.append(st_)
+                return out
+
+            tree.body = rewrite(tree.body)
             changed.add(rel)
             report.append(("inlined-import-time-helper", f"{rel}:{D.name}"))
     return changed
@@ -1641,7 +1702,13 @@ def lower_static_classes(trees, report, unknown=None):
                     continue
                 if isinstance(st, ast.Pass):
                     continue
+                if isinstance(st, ast.Assign) and len(st.targets) == 1 and isinstance(st.targets[0], ast.Name) and st.targets[0].id == "__slots__":
+                    continue  # never instantiated: the slots say nothing
                 if isinstance(st, ast.FunctionDef) and [ast.unparse(d) for d in st.decorator_list] == ["staticmethod"] and not st.name.startswith("__"):
+                    members.append(st)
+                    continue
+                if isinstance(st, ast.FunctionDef) and [ast.unparse(d) for d in st.decorator_list] == ["classmethod"] and not st.name.startswith("__") and st.args.args:
+                    # `cls` only as `cls.<member>` or `getattr(cls, <expr>)`: checked once the members are known
                     members.append(st)
                     continue
                 if isinstance(st, ast.Assign) and len(st.targets) == 1 and isinstance(st.targets[0], ast.Name) and not st.targets[0].id.startswith("__"):
@@ -1653,8 +1720,29 @@ def lower_static_classes(trees, report, unknown=None):
                 ok = False
             if not ok or not any(isinstance(m, ast.FunctionDef) for m in members):
                 continue
-            names = [m.name if isinstance(m, ast.FunctionDef) else (m.targets[0].id if isinstance(m, ast.Assign) else m.target.id) for m in members]
+            # class attributes defined after the class body at module level: `K.attr = expr`
+            late = [st for st in tree.body if isinstance(st, ast.Assign) and len(st.targets) == 1 and isinstance(st.targets[0], ast.Attribute) and isinstance(st.targets[0].value, ast.Name) and st.targets[0].value.id == K.name]
+            names = [m.name if isinstance(m, ast.FunctionDef) else (m.targets[0].id if isinstance(m, ast.Assign) else m.target.id) for m in members] + [st.targets[0].attr for st in late]
             if len(set(names)) != len(names):
+                continue
+            # classmethods: `cls` used only to reach members
+            cm_ok = True
+            for m in members:
+                if isinstance(m, ast.FunctionDef) and [ast.unparse(d) for d in m.decorator_list] == ["classmethod"]:
+                    cn = m.args.args[0].arg
+                    pmc = {}
+                    for n in ast.walk(m):
+                        for c in ast.iter_child_nodes(n):
+                            pmc[id(c)] = n
+                    for n in ast.walk(m):
+                        if isinstance(n, ast.Name) and n.id == cn:
+                            par = pmc.get(id(n))
+                            if isinstance(par, ast.Attribute) and par.value is n and par.attr in names and isinstance(par.ctx, ast.Load):
+                                continue
+                            if isinstance(par, ast.Call) and isinstance(par.func, ast.Name) and par.func.id == "getattr" and len(par.args) == 2 and par.args[0] is n:
+                                continue
+                            cm_ok = False
+            if not cm_ok:
                 continue
             # every use of the class name: <K>.member loads
             good = True
@@ -1666,6 +1754,8 @@ def lower_static_classes(trees, report, unknown=None):
                 for n in ast.walk(t2):
                     if isinstance(n, ast.Name) and n.id == K.name:
                         par = pm.get(id(n))
+                        if isinstance(par, ast.Attribute) and par.value is n and par.attr in names and isinstance(par.ctx, ast.Store) and any(par is st.targets[0] for st in late):
+                            continue
                         if not (isinstance(par, ast.Attribute) and par.value is n and par.attr in names and isinstance(par.ctx, ast.Load)):
                             good = False
                     elif isinstance(n, ast.Attribute) and n.attr == K.name:
@@ -1687,8 +1777,32 @@ def lower_static_classes(trees, report, unknown=None):
                     return n
 
             hoisted = []
+            for st in late:
+                st.targets[0] = ast.copy_location(ast.Name(id=new_name[st.targets[0].attr], ctx=ast.Store()), st.targets[0])
+            member_fns = [m.name for m in members if isinstance(m, ast.FunctionDef)]
             for m in members:
                 if isinstance(m, ast.FunctionDef):
+                    if [ast.unparse(d) for d in m.decorator_list] == ["classmethod"]:
+                        cn = m.args.args[0].arg
+                        others = [nm_ for nm_ in names if nm_ != m.name]
+                        lookup = ast.Dict(keys=[ast.Constant(value=nm_) for nm_ in others], values=[ast.Name(id=new_name[nm_], ctx=ast.Load()) for nm_ in others])
+
+                        class RC(ast.NodeTransformer):
+                            def visit_Attribute(self, n):
+                                self.generic_visit(n)
+                                if isinstance(n.value, ast.Name) and n.value.id == cn and n.attr in new_name:
+                                    return ast.copy_location(ast.Name(id=new_name[n.attr], ctx=ast.Load()), n)
+                                return n
+
+                            def visit_Call(self, n):
+                                self.generic_visit(n)
+                                if isinstance(n.func, ast.Name) and n.func.id == "getattr" and len(n.args) == 2 and isinstance(n.args[0], ast.Name) and n.args[0].id == cn:
+                                    # getattr(cls, E): the member named E
+                                    return ast.copy_location(ast.Subscript(value=copy.deepcopy(lookup), slice=n.args[1], ctx=ast.Load()), n)
+                                return n
+
+                        RC().visit(m)
+                        m.args.args = m.args.args[1:]
                     m.decorator_list = []
                     m.name = new_name[m.name]
                 elif isinstance(m, ast.Assign):
@@ -1727,6 +1841,67 @@ def lower_static_classes(trees, report, unknown=None):
     return changed
 
 
+def resolve_module_aliases(trees, report, unknown=None):
+    """Module-level `A = B` where B is a module-level name the reference does not have, bound once (to a function
+    definition or to a display) and read nowhere but in that assignment: B is renamed A and the assignment goes (one
+    object, one name).  With several aliases of one function (`a = f`, read elsewhere as `f`) the function takes the
+    name the reference knows and the other reads follow."""
+    inv = load_inventory()
+    if inv is None:
+        return set()
+    changed = set()
+    for rel, tree in list(trees.items()):
+        if rel not in inv.get("globals", {}):
+            continue
+        known = set(inv.get("globals", {}).get(rel, ()))
+        again = True
+        while again:
+            again = False
+            defs = {}
+            for st in tree.body:
+                if isinstance(st, (ast.FunctionDef, ast.AsyncFunctionDef)):
+                    defs.setdefault(st.name, []).append(st)
+                elif isinstance(st, ast.Assign) and len(st.targets) == 1 and isinstance(st.targets[0], ast.Name):
+                    defs.setdefault(st.targets[0].id, []).append(st)
+            for st in list(tree.body):
+                if not (isinstance(st, ast.Assign) and len(st.targets) == 1 and isinstance(st.targets[0], ast.Name) and isinstance(st.value, ast.Name)):
+                    continue
+                A, B = st.targets[0].id, st.value.id
+                if A == B or B in known or len(defs.get(B, [])) != 1 or len(defs.get(A, [])) != 1:
+                    continue
+                bdef = defs[B][0]
+                if tree.body.index(bdef) > tree.body.index(st):
+                    continue
+                is_fn = isinstance(bdef, (ast.FunctionDef, ast.AsyncFunctionDef))
+                is_disp = isinstance(bdef, ast.Assign) and isinstance(bdef.value, (ast.Dict, ast.List, ast.Set, ast.Tuple))
+                if not (is_fn or is_disp):
+                    continue
+                stores_b = sum(1 for n in ast.walk(tree) if isinstance(n, ast.Name) and n.id == B and isinstance(n.ctx, (ast.Store, ast.Del)))
+                if stores_b > (0 if is_fn else 1) or any(isinstance(n, (ast.Global, ast.Nonlocal)) and (A in n.names or B in n.names) for n in ast.walk(tree)):
+                    continue
+                # B imported elsewhere under its own name?
+                if any(isinstance(n, ast.ImportFrom) and any(a.name == B for a in n.names) for r2, t2 in trees.items() if r2 != rel for n in ast.walk(t2)):
+                    continue
+                loads_b = [n for n in ast.walk(tree) if isinstance(n, ast.Name) and n.id == B and isinstance(n.ctx, ast.Load)]
+                # every read of B is a read of the one object both names denote: all of them become A
+                # rename B -> A
+                for n in ast.walk(tree):
+                    if isinstance(n, ast.Name) and n.id == B:
+                        n.id = A
+                if is_fn:
+                    bdef.name = A
+                tree.body = [x for x in tree.body if x is not st]
+                if isinstance(unknown, set) and is_fn:
+                    unknown.discard((rel, B))
+                    if A not in known:
+                        unknown.add((rel, A))
+                report.append(("module-alias", f"{rel}:{B}->{A}"))
+                changed.add(rel)
+                again = True
+                break
+    return changed
+
+
 def undo(trees, unknown, report):
     """all three steps; returns the relpaths whose tree changed"""
     from .canon import canonicalise
@@ -1744,6 +1919,10 @@ def undo(trees, unknown, report):
     for rel in e3:
         canonicalise(trees[rel])
     changed |= e3
+    e4 = resolve_module_aliases(trees, report, unknown if isinstance(unknown, set) else None)
+    for rel in e4:
+        canonicalise(trees[rel])
+    changed |= e4
     e2 = lower_callable_objects(trees, report, unknown if isinstance(unknown, set) else None)
     for rel in e2:
         canonicalise(trees[rel])
